@@ -144,7 +144,7 @@ def run():
         "contract of get_displacement_tensor (subject of C10): for atoms inside the cell the distance entry is the minimum-image distance if it is <= cutoff, else inf",
         "invariance under supercell / basis change / rigid motion / reordering follows from 'result = formula on the bonding graph' + A-TSA + C10; not separately proved",
     ]
-    sections_parallel(rep, [("dim", _dim), ("clusters", _clusters), ("lemmas", _lemmas)])
+    sections_parallel(rep, [("dim", _dim), ("clusters", _clusters), ("lemmas", _lemmas), ("getdistances", _getdistances)])
     return rep
 
 
@@ -481,6 +481,12 @@ def _clusters(rep):
 
 
 # ---------------------------------------------------------------------------------------------
+
+def _getdistances(rep):
+    """the distance tables handed to the callees are those of the periodic search of the structure (contract of get_distances, shared with C10)"""
+    from props import C10
+    C10._getdistances(rep)
+
 def replay_key(ob):
     return "c09"
 
